@@ -43,11 +43,13 @@ func NewRunnerManager(runners ...Runner) *RunnerManager {
 
 // Add adds a new runner to the RunnerManager.
 func (r *RunnerManager) Add(runner ...Runner) error {
+	r.lock.Lock()
+	defer r.lock.Unlock()
+	// Checked under the lock that Run holds while it starts, so that a runner
+	// is either registered before Run looks at the runners or rejected.
 	if r.running.Load() {
 		return ErrManagerAlreadyStarted
 	}
-	r.lock.Lock()
-	defer r.lock.Unlock()
 	r.runners = append(r.runners, runner...)
 	return nil
 }
@@ -56,15 +58,20 @@ func (r *RunnerManager) Add(runner ...Runner) error {
 // runner returns, the RunnerManager will stop all other runners and return any
 // error.
 func (r *RunnerManager) Run(ctx context.Context) error {
+	r.lock.Lock()
 	if !r.running.CompareAndSwap(false, true) {
+		r.lock.Unlock()
 		return ErrManagerAlreadyStarted
 	}
+	// Add rejects from now on: these are all the runners there will ever be.
+	runners := r.runners
+	r.lock.Unlock()
 
 	ctx, cancel := context.WithCancel(ctx)
 	defer cancel()
 
 	errCh := make(chan error)
-	for _, runner := range r.runners {
+	for _, runner := range runners {
 		go func(runner Runner) {
 			// Since the task returned, we need to cancel all other tasks.
 			// This is a noop if the parent context is already cancelled, or another
@@ -86,7 +93,7 @@ func (r *RunnerManager) Run(ctx context.Context) error {
 
 	// Collect all errors
 	errObjs := make([]error, 0)
-	for i := 0; i < len(r.runners); i++ {
+	for i := 0; i < len(runners); i++ {
 		err := <-errCh
 		if err != nil {
 			errObjs = append(errObjs, err)
